@@ -148,7 +148,8 @@ namespace RecInt
     }
 
     template <size_t K, typename T> rint<K>& operator>>=(rint<K>& b, const T& c) {
-        b.Value >>= c;
+        if (b.isNegative()) { b.Value = ~b.Value; b.Value >>= c; b.Value = ~b.Value; }
+        else b.Value >>= c;
         return b;
     }
 
